@@ -135,8 +135,8 @@ PROPS = {
     ),
     'C14': dict(
         title='drop-in inspect objects', proj='proj_full', oracle='c14',
-        quick=[S_('probes', nc=1, items=('copy_eq', 'bind_receiver')), S_('eq'), S_('sigcmp')],
-        thorough=[S_('probes', nc=1, items=('copy_eq', 'bind_receiver')), S_('eq'), S_('sigcmp')],
+        quick=[S_('probes', nc=1, items=('copy_eq', 'bind_receiver', 'eq_odd_annotations')), S_('eq'), S_('sigcmp')],
+        thorough=[S_('probes', nc=1, items=('copy_eq', 'bind_receiver', 'eq_odd_annotations')), S_('eq'), S_('sigcmp')],
         runtime_part='inherited str()/bind()/bind_partial() (compared with a plain inspect.Signature over the universe x call shapes), attribute storage of replace()',
         level_text='The ==/!=/hash protocol (reflected operand first, NotImplemented fall-backs) of upgraded vs plain objects is modelled and its laws (total, reflexive, '
                    'symmetric, consistent with hash, hashable like the plain counterpart) are theorems; the model is compared with real ==, != and hash over a menagerie; '
